@@ -3,26 +3,27 @@
 import json, os
 V = os.path.dirname(os.path.dirname(os.path.abspath(__file__)))
 props = [json.loads(l) for l in open(os.path.join(V, 'properties.jsonl'))]
+BK = 'shadow-symbolic execution of the LLVM IR of the real code (fpsym) + z3 per path class; plus ir2c (LLVM IR -> C) + CBMC bit-precise bounded checking of the 1-D leaf kernels for all point indexes / levels within the unwinding bound'
 B = 'shadow-symbolic execution of the LLVM IR of the real code (fpsym) + z3 (QF_LRA / interval relaxation / QF_NRA) per path class, solver-enumerated path classes'
 CLAIMS = {
- 'C01': dict(engine='fpsym', text='bounded symbolic execution of the real load/refine/construct/evaluate call tree with every model value symbolic; each reproduction obligation is decided by z3 for all value arrays of the path class',
-             note='reals instead of IEEE doubles on symbolic data (tolerance 1e-9*(1+N)); dims<=4, depth<=4, outputs<=2, budgeted path classes for value-dependent refinement; Wavelet excluded; clang-14, fpsym, z3 trusted', tech=B),
+ 'C01': dict(engine='fpsym+ir2c', text='bounded symbolic execution of the real load/refine/construct/evaluate call tree with every model value symbolic; each reproduction obligation is decided by z3 for all value arrays of the path class',
+             note='reals instead of IEEE doubles on symbolic data (tolerance 1e-9*(1+N)); dims<=4, depth<=4, outputs<=2, budgeted path classes for value-dependent refinement; Wavelet excluded; clang-14, fpsym, z3 trusted', tech=BK),
  'C20': dict(engine='fpsym', text='bounded symbolic execution of the real ParticleSwarm / ParticleSwarmState code: positions, velocities, random stream, objective values and domain verdicts are symbolic; z3 enumerates path classes (branch-tree search) and decides the book-keeping obligations for all inputs of each class',
              note='reals instead of doubles on symbolic data; particles<=2, dims<=2, <=3 iterations over two calls with one state edit between; budgeted path classes; concrete coefficients; private cache read with -fno-access-control; one open known finding (clearCache with a never-set best slot)', tech=B),
- 'C02': dict(engine='fpsym', text='symbolic execution of the real quadrature code on a polynomial with symbolic coefficients over exactly the declared space; one linear-arithmetic query decides exactness for all polynomials of that space against independent closed-form moments; integrate() == sum w_i y_i for all value arrays',
-             note='reals instead of doubles on symbolic data, tolerance scaled by the conditioning sum|w_i||x_i^m|; dims<=3, depth<=6; listed alpha/beta; one affine transform; hand-written moment oracle; exotic and custom-tabulated rules excluded', tech=B),
- 'C03': dict(engine='fpsym', text='evaluate(x) and the interpolation-weight sum run at a symbolic point x with symbolic coefficients of the whole declared function space; the polynomial residual is bounded by z3 over every path cell (interval relaxation in QF_LRA, QF_NRA fallback), cells enumerated by the solver',
-             note='reals instead of doubles; degree <= 16 (1-D) / <= 8 (2-D); <= 200 cells per configuration; Wavelet with concrete affine functions; Fourier via cos/sin atoms reduced modulo sin^2+cos^2=1, its weights at symbolic x not claimed; clenshaw-curtis-zero space not checked', tech=B),
- 'C04': dict(engine='fpsym', text='all routes run in one symbolic execution of the real code (values, coefficients and optionally the evaluation point symbolic); the difference of two routes is a polynomial residual that z3 bounds for all inputs of each path class (cells of local bases are classes)',
-             note='reals instead of doubles on symbolic data; dims<=3, depth<=3; five history classes; symbolic x limited to <=40 cells per configuration; Wavelet: coefficient overwrite symbolic, model values concrete; support clause at concrete probe points (all-point version is engine K)', tech=B),
+ 'C02': dict(engine='fpsym+ir2c', text='symbolic execution of the real quadrature code on a polynomial with symbolic coefficients over exactly the declared space; one linear-arithmetic query decides exactness for all polynomials of that space against independent closed-form moments; integrate() == sum w_i y_i for all value arrays',
+             note='reals instead of doubles on symbolic data, tolerance scaled by the conditioning sum|w_i||x_i^m|; dims<=3, depth<=6; listed alpha/beta; one affine transform; hand-written moment oracle; exotic and custom-tabulated rules excluded', tech=BK),
+ 'C03': dict(engine='fpsym+ir2c', text='evaluate(x) and the interpolation-weight sum run at a symbolic point x with symbolic coefficients of the whole declared function space; the polynomial residual is bounded by z3 over every path cell (interval relaxation in QF_LRA, QF_NRA fallback), cells enumerated by the solver',
+             note='reals instead of doubles; degree <= 16 (1-D) / <= 8 (2-D); <= 200 cells per configuration; Wavelet with concrete affine functions; Fourier via cos/sin atoms reduced modulo sin^2+cos^2=1, its weights at symbolic x not claimed; clenshaw-curtis-zero space not checked', tech=BK),
+ 'C04': dict(engine='fpsym+ir2c', text='all routes run in one symbolic execution of the real code (values, coefficients and optionally the evaluation point symbolic); the difference of two routes is a polynomial residual that z3 bounds for all inputs of each path class (cells of local bases are classes)',
+             note='reals instead of doubles on symbolic data; dims<=3, depth<=3; five history classes; symbolic x limited to <=40 cells per configuration; Wavelet: coefficient overwrite symbolic, model values concrete; support clause at concrete probe points (all-point version is engine K)', tech=BK),
  'C05': dict(engine='fpsym', text='the driver differentiates the expression of evaluate(x) exactly (polynomial, quotient, sqrt, cos/sin rules) and z3 bounds differentiate(x) minus that derivative over the interior of every path cell, for all values (or all members of the reproduced space) and, with transforms, the chain rule',
              note='reals instead of doubles; class interiors only (kinks and support edges are class boundaries); orders -1,1..5; dims<=3; <= 120 cells per configuration; Wavelet with concrete values; conformal maps excluded', tech=B),
  'C06': dict(engine='fpsym', text='binary write/read round trips of grids with symbolic values through the real stream code: shadows travel on a byte-offset tape, every observable of the restored grid is compared as an expression (z3), structure, byte identity of the second generation, stream consumption and behaviour of further operations are checked',
              note='binary format only (ASCII is an un-counted concrete sanity pass: libstdc++ number formatting is not encoded); stringstream entry point; seven history classes; dims<=3; Wavelet with concrete values; primitive-level CBMC harnesses for IO::* not built', tech=B),
  'C07': dict(engine='fpsym', text='operation sequences of the real refinement/load/merge/clear API run with coordinate-tagged symbolic values, symbolic tolerances and scale corrections; value association is decided as symbol identity by z3, set invariants and the classic-criterion oracle are checked on every solver-constructed path class',
              note='reals instead of doubles; sequences of <= 5 operations enumerated as configurations; dims<=3, depth<=3; budgeted classes; Wavelet with concrete values; classic oracle only for Local Polynomial', tech=B),
- 'C08': dict(engine='fpsym', text='level-limit vectors are derived from symbolic reals so z3 enumerates (and certifies) all vectors in {-1,0,1,2}^d; on each class the real make/update/refine/candidate calls run, every point must lie within the limits in force, limits must persist, and every call must return within the time bound',
-             note='solver-certified enumeration of a small discrete box (not a for-all over reals); dims 2 (3 once); <= 4 calls; 30 s termination bound; limits introduced later than make are only claimed when not below levels already present', tech=B),
+ 'C08': dict(engine='fpsym+ir2c', text='level-limit vectors are derived from symbolic reals so z3 enumerates (and certifies) all vectors in {-1,0,1,2}^d; on each class the real make/update/refine/candidate calls run, every point must lie within the limits in force, limits must persist, and every call must return within the time bound',
+             note='solver-certified enumeration of a small discrete box (not a for-all over reals); dims 2 (3 once); <= 4 calls; 30 s termination bound; limits introduced later than make are only claimed when not below levels already present', tech=BK),
  'C09': dict(engine='fpsym', text='the real loadConstructedPoints is driven with the arrival order and batch cuts of the whole target set derived from symbolic priorities/flags and with symbolic values; z3 enumerates permutation x partition classes and decides value identity and equality with the one-batch surrogate for all values in each class',
              note='reals instead of doubles; targets are full grids with <= 21 points; classes complete only where evidence says so, else budgeted; Wavelet with concrete values; one open known finding (Global/Fourier out-of-order tensors)', tech=B),
  'C10': dict(engine='fpsym', text='transform bounds (a, width r, b := a + r), canonical point and values are symbolic; canonical and transformed grids run side by side and points, surrogate, Jacobian, supports, weights and integrals are compared as Laurent-polynomial identities decided by z3; getDomainInside is decided on solver-enumerated classes',
